@@ -302,7 +302,7 @@ def execute_diffusion(rec):
             for k in c2:
                 cnt[k] = c2[k]
     cnt['pairs'] = 1
-    if finals[0][1] != finals[1][1] or not np.array_equal(finals[0][0], finals[1][0]):
+    if finals[0][1] != finals[1][1] or not np.array_equal(finals[0][0], finals[1][0], equal_nan=True):
         F.add('C13.equivalent_specs_differ', f'diffusion runs with the schedule supplied through the constructor object and through the setter differ (end times {finals[0][1]!r} / {finals[1][1]!r})', pair='ctor_setter_diffusion')
     fl = [f for f in F.items if f['check'].startswith('C13.')]
     kind = rec['cfg']['T']['kind']
